@@ -3,7 +3,6 @@ package main
 import (
 	"strings"
 
-	"github.com/juev/hledger-lsp/internal/parser"
 )
 
 func init() {
@@ -15,7 +14,7 @@ func init() {
 }
 
 func c03Case(text string, truth any) map[string]any {
-	j, errs := parser.Parse(text)
+	j, errs := hxParse(text)
 	return map[string]any{"text": hx(text), "truth": truth,
 		"impl": J{"journal": journalJ(j), "errors": perrsJ(errs)}}
 }
